@@ -250,6 +250,53 @@ pub fn c06_internal_sets_family(rep: &mut Report) {
             }
         }
     }
+    // multi-file mode with several type mappings: the mapped names travel through the backend's own map into the
+    // parser's ignore list and the import bookkeeping
+    {
+        let a = "#[typeshare]\npub struct AccountId { pub v: String }\n#[typeshare]\npub struct Money { pub cents: u32 }\n#[typeshare]\npub struct Timestamp { pub secs: u32 }\n#[typeshare]\npub struct Label { pub text: String }\n#[typeshare]\npub struct Extra { pub e: u32 }\n";
+        let b = "use types::{AccountId, Money, Timestamp, Label, Extra};\n#[typeshare]\npub struct Transfer { pub from: AccountId, pub to: Option<AccountId>, pub amount: Money, pub at: Vec<Timestamp>, pub note: Label, pub extra: types::Extra }\n";
+        for &lang in &ALL_LANGS {
+            let mut cfg = Cfg::plain();
+            cfg.multi_file = true;
+            for (k, v) in [("AccountId", "String"), ("Money", "Double"), ("Timestamp", "Long"), ("Uuid", "String"), ("Url", "String")] {
+                let v = match (lang, v) {
+                    (Lang::TypeScript, "String") => "string",
+                    (Lang::TypeScript, _) => "number",
+                    (Lang::Go, "String") => "string",
+                    (Lang::Go, _) => "float64",
+                    (Lang::Python, "String") => "str",
+                    (Lang::Python, _) => "float",
+                    (_, v) => v,
+                };
+                cfg.type_mappings.push((k.into(), v.into()));
+            }
+            let files = [
+                SrcFile { crate_name: "types".into(), path: "types/src/lib.rs".into(), source: a.into() },
+                SrcFile { crate_name: "app".into(), path: "app/src/lib.rs".into(), source: b.into() },
+            ];
+            let mut outs: BTreeMap<String, usize> = BTreeMap::new();
+            for _ in 0..attempts {
+                let o = std::thread::scope(|s| s.spawn(|| pipeline::run(&files, lang, &cfg)).join());
+                total += 1;
+                let key = match o {
+                    Ok(Outcome::Ok(m)) => m.iter().map(|(k, v)| format!("== {k}\n{v}")).collect::<Vec<_>>().join("\n"),
+                    Ok(other) => format!("<{}>", other.kind()),
+                    Err(_) => "<thread panicked>".into(),
+                };
+                *outs.entry(key).or_insert(0) += 1;
+            }
+            rows.push(json!({"program": "multi-file-with-five-type-mappings", "lang": lang.name(), "fresh_seeds": attempts, "distinct_outputs": outs.len()}));
+            if outs.len() > 1 {
+                let mut it = outs.iter();
+                let x = it.next().unwrap();
+                let y = it.next().unwrap();
+                rep.vios.add(Violation {
+                    sig: format!("C06|nondeterministic-output|internal-collection-order|multi-file-with-type-mappings|{}", lang.name()),
+                    detail: json!({"lang": lang.name(), "crates": {"types": a, "app": b}, "type_mappings": cfg.type_mappings, "distinct_outputs": outs.len(), "runs": attempts, "output_a": x.0, "times_a": x.1, "output_b": y.0, "times_b": y.1}),
+                });
+            }
+        }
+    }
     rep.cov("internal_collection_orders", json!({"runs": total, "per_program_and_language": rows, "how": "fresh thread (fresh SipHash keys) + fresh backend instance per run; orders are observed, not forced"}));
     rep.cov_add("evaluations", total);
 }
